@@ -37,7 +37,8 @@ MIN = {
 CASE_TIMEOUT = {"quick": 900, "thorough": 3000}
 TOTAL_TIMEOUT = {"quick": 1800, "thorough": 7200}
 TOL = 1e-4
-OPT_GENES = ["toy", "toy", "toy", "gen", "gen", "gen", "cyp2c19", "tpmt", "nudt15", "cyp2a6", "ifnl3"]
+OPT_GENES = ["toy", "toy", "toy", "gen", "gen", "gen", "cyp2c19", "tpmt", "nudt15", "cyp2a6", "ifnl3",
+             "gstp1", "gstm1"]  # (the last two catalogue function-altering variants that no allele carries)
 BIG = {"cyp2d6", "dpyd", "ryr1", "g6pd"}
 
 
@@ -257,6 +258,11 @@ def _opt_case(res, rng, seed_desc):
     if fm and rng.random() < 0.4:
         for m in rng.sample(fm, min(len(fm), rng.choice([1, 1, 2]))):
             extra[m] = rng.randint(1, depth)
+    # catalogued function-altering variants that no allele carries (they can only ever be flagged as novel)
+    owned = {(m.pos, m.op) for a in g.alleles.values() for m in a.func_muts}
+    orphans = sorted(m for m in fm if tuple(m) not in owned)
+    if orphans and rng.random() < 0.6:
+        extra[rng.choice(orphans)] = rng.randint(max(1, depth // 2), depth)
     counts = tables.noisy(tables.planted_counts(g, copies, depth, extra_variants=extra), rng, eps)
     prof = Profile("test", gap=gap)
     if rng.random() < 0.15:
@@ -285,6 +291,14 @@ def _opt_case(res, rng, seed_desc):
             "eps": eps, "gap": gap, "indel_table": {f"{k[0]}:{k[1]}": v for k, v in (indel_table or {}).items()},
             "lowq_sites": len(lowq or {}), "extra_variants": {f"{p}:{o}": n for (p, o), n in extra.items()},
             "gen_seed": seed_desc}
+    # the evidence object may have served another structure before (genotype() hands the same object to the stage
+    # for every structure the copy-number stage returned)
+    if rng.random() < 0.4:
+        try:
+            estimate_major(g, cov, CNSolution(g, 0, tables.cn_list(g, copies) + rng.choice([["1"], ["1", "1"]])), "any")
+            desc["evidence_used_before_for_another_structure"] = True
+        except Exception:
+            pass
     lpmon.reset()
     with Capture() as cap:
         try:
